@@ -804,6 +804,17 @@ designator(struct scope *s, struct type *t, unsigned long long *offset)
 	}
 }
 
+static struct type *
+builtintype(struct scope *s, enum typequal *tq, struct expr **toeval)
+{
+	struct type *t;
+
+	t = typename(s, tq, toeval);
+	if (!t)
+		error(&tok.loc, "expected type name");
+	return t;
+}
+
 static struct expr *
 builtinfunc(struct scope *s, enum builtinkind kind)
 {
@@ -843,7 +854,7 @@ builtinfunc(struct scope *s, enum builtinkind kind)
 		e->u.constant.f = strtod("nan", NULL);
 		break;
 	case BUILTINOFFSETOF:
-		t = typename(s, NULL, NULL);
+		t = builtintype(s, NULL, NULL);
 		expect(TCOMMA, "after type name");
 		name = expect(TIDENT, "after ','");
 		if (t->kind != TYPESTRUCT && t->kind != TYPEUNION)
@@ -857,9 +868,9 @@ builtinfunc(struct scope *s, enum builtinkind kind)
 		free(name);
 		break;
 	case BUILTINTYPESCOMPATIBLEP:
-		t = typename(s, NULL, NULL);
+		t = builtintype(s, NULL, NULL);
 		expect(TCOMMA, "after type name");
-		e = mkconstexpr(&typeint, typecompatible(t, typename(s, NULL, NULL)));
+		e = mkconstexpr(&typeint, typecompatible(t, builtintype(s, NULL, NULL)));
 		break;
 	case BUILTINUNREACHABLE:
 		e = mkexpr(EXPRBUILTIN, &typevoid, NULL);
@@ -873,7 +884,7 @@ builtinfunc(struct scope *s, enum builtinkind kind)
 		if (typeadjvalist == targ->typevalist)
 			e->base = mkunaryexpr(TBAND, e->base);
 		expect(TCOMMA, "after va_list");
-		e->type = typename(s, &e->qual, &toeval);
+		e->type = builtintype(s, &e->qual, &toeval);
 		e->toeval = toeval;
 		break;
 	case BUILTINVACOPY:
